@@ -21,6 +21,7 @@ FAMILIES = {
     'c19_serialize_attributes': '0..2 attributes, probe result arbitrary; vector identity in and out',
     'c19_deserialize': 'probe result / tag / error byte arbitrary; Deserializer never dereferenced',
     'c19_default_clone_deref': 'arbitrary tag; Default, Clone (Arc identity, no value copy), Deref',
+    'c19_nested_wrappers': 'MultiRef<MultiRef<Probe>>: arbitrary tag / verdict / error byte through two layers; clone of a clone shares both layers',
     'c14_kw': 'identifier = EVERY string of exactly L bytes over [a-z0-9_S] not starting with a digit; oracle: edition-2024 strict+reserved keyword list',
     'c02_table': 'type name = EVERY byte string of exactly L printable ASCII bytes without ":"; oracle: pinned builtin table; to_pascal_case stubbed by a tagging function',
 }
@@ -195,7 +196,7 @@ def c19(tier):
             'Debug forwarding is not harnessed (needs a core::fmt::Formatter; fmt machinery is out of CBMC reach)',
             "yaserde's own derive output is outside the claim",
         ],
-        bounds_text='attribute vectors <= 2; error strings 1 byte; one call per harness (two in c19_check_restrictions_every_time)')
+        bounds_text='attribute vectors <= 2; error strings 1 byte; one call per harness (two in c19_check_restrictions_every_time); wrappers nested <= 2 deep')
 
 
 def c14_kw_part(rep, tier):
